@@ -236,6 +236,31 @@ func (h *Host) EnvFuns() map[string]*ref.V {
 		logf("h2(%s,%s)", describeReal(x[0]), describeReal(x[1]))
 		return val.Num(x[0].Num().V*10 + x[1].Num().V)
 	}))
+	// lz1: lazy, runs its FIRST operand only; lzif: a lazy user conditional (bool, num, num)
+	add(&ref.Sig{Name: "lz1", Params: []*gen.Ty{N, N}, Ret: N, Lazy: true, LazyImpl: func(ev *ref.Eval, t []ref.Thunk) (*ref.V, *ref.Fail) {
+		ev.Trace = append(ev.Trace, "lz1")
+		return t[0]()
+	}}, val.LazyFun(types.Fun("lz1", []*types.Type{types.Num, types.Num}, types.Num), func(x ...*val.Val) *val.Val {
+		logf("lz1")
+		return x[0].Fun().Call()
+	}))
+	add(&ref.Sig{Name: "lzif", Params: []*gen.Ty{gen.Bool, N, N}, Ret: N, Lazy: true, LazyImpl: func(ev *ref.Eval, t []ref.Thunk) (*ref.V, *ref.Fail) {
+		ev.Trace = append(ev.Trace, "lzif")
+		c, f := t[0]()
+		if f != nil {
+			return nil, f
+		}
+		if c.B {
+			return t[1]()
+		}
+		return t[2]()
+	}}, val.LazyFun(types.Fun("lzif", []*types.Type{types.Bool, types.Num, types.Num}, types.Num), func(x ...*val.Val) *val.Val {
+		logf("lzif")
+		if x[0].Fun().Call().Bool().V {
+			return x[1].Fun().Call()
+		}
+		return x[2].Fun().Call()
+	}))
 	add(&ref.Sig{Name: "lz", Params: []*gen.Ty{N, N}, Ret: N, Lazy: true, LazyImpl: func(ev *ref.Eval, t []ref.Thunk) (*ref.V, *ref.Fail) {
 		ev.Trace = append(ev.Trace, "lz")
 		return t[1]()
